@@ -48,6 +48,10 @@ type Oracle struct {
 	tag     string
 	hostile string
 	tagHop  int
+	// C17 (world half): L3 exchanges before groupEpoch belong to an earlier authenticator process
+	groupEpoch  int
+	groupEpochs []int
+	okAnswers   map[string]okAnswer
 }
 
 type flowRec struct {
